@@ -163,9 +163,9 @@ def run(pid, tier, seed, replay=None):
     chk.mc('mc', 'Search_MC.tla', dict(spec='Spec', constants=mc_consts('all', not thorough), invariants=['C17_Scrub', 'C17_Find', 'C17_Pages', 'C17_Facet']))
     # 2. GEN: inputs chosen by TLC
     if thorough:
-        cases = gen(chk, 'gen', seed, GenPart='"ab"', NScrub=0, NDb=500, NFind=40, NPages_=8, NFacet=8)
+        cases = gen(chk, 'gen', seed, GenPart='"ab"', NScrub=0, NDb=300, NFind=40, NPages_=8, NFacet=8)
     else:
-        cases = gen(chk, 'gen', seed, GenPart='"ab"', NScrub=6000, NDb=40, NFind=24, NPages_=5, NFacet=5)
+        cases = gen(chk, 'gen', seed, GenPart='"ab"', NScrub=3000, NDb=24, NFind=20, NPages_=4, NFacet=4)
     scrub_cases = [c for c in cases if c['kind'] == 'a']
     db_cases = [c for c in cases if c['kind'] == 'b']
     if not scrub_cases or not db_cases:
@@ -183,7 +183,7 @@ def run(pid, tier, seed, replay=None):
     empty = [k for k in COUNTERS if counters[k] == 0]
     if empty:
         raise core.Machinery(f'vacuous run: no case with {empty}')
-    some_db = [j for j in jobs if j['kind'] == 'b' and j['db']]
+    some_db = sorted((j for j in jobs if j['kind'] == 'b' and len(j['db']) >= 6), key=lambda j: len(j['db']))
     chk.samples = [{'scrub': j['exprs'][0]} for j in jobs[:2] if j['kind'] == 'a'] + [
         {'db_entries': len(j['db']), 'bump': j['bump'], 'step': j['steps'][k]} for j in some_db[:4] for k in (0,)
     ]
@@ -196,7 +196,7 @@ def run(pid, tier, seed, replay=None):
         'shelve back end only, opened locally (DBI().open()); the PostgreSQL implementation is not reached (no server)',
     ]
     return chk.finish(
-        'expressions: every run-id expression of the domain (thorough) or a seeded sample of 6000 (quick), each normalised by the real _scrub in three input forms; '
+        'expressions: every run-id expression of the domain (thorough) or a seeded sample of 3000 (quick), each normalised by the real _scrub in three input forms; '
         'databases: structured ones plus TLC-drawn subsets of the grid in five density classes, each filled into real shelve tables and queried with TLC-drawn '
         'find / page-walk / facet queries over the full constraint space, through dawgie.db.search() and the fe.api wrappers. '
         'non-trivial = normalisation changed the expression / find with a non-empty match / walk over >= 2 pages / facet with a non-empty match; distinct by (database, query)'
